@@ -188,7 +188,9 @@ def run(ctx):
                  "_complete() is reachable for a final state that is not a child of the root", call)
         sends = [s for s in res.callsites(dc, v) if s.callee_text in ("self.send", "self._deliver")]
         for s in sends:
-            ok = any("on_done" in norm(a) and pl for a, pl in guards_at(dc, s.call)) and any("_is_state_done" in norm(a) and pl for a, pl in guards_at(dc, s.call))
+            # simple positive atoms only: a disjunction that merely mentions the done-ness test ('not parallel or done') does not establish it
+            ok = any("on_done" in norm(a) and pl and not isinstance(a, ast.BoolOp) for a, pl in guards_at(dc, s.call)) and \
+                any(pl and isinstance(a, ast.Call) and norm(a.func).endswith("_is_state_done") for a, pl in guards_at(dc, s.call))
             c.ob("R5", ok, dc, "done-event-only-when-done", "done.state is raised only for an ancestor that has onDone and is done" if ok else
                  "a done.state event is raised without checking that the ancestor is done / has onDone", s.call)
         # exactly one done event per final entry: the send is followed by return
